@@ -60,7 +60,8 @@ Inductive wres := WOk (m : hm) | WErr | WPanic.
      header_map.insert(GRPC_STATUS, self.code.to_header_value());
      if !message.is_empty() { insert(GRPC_MESSAGE, from_maybe_shared(pct)?) }
      if !details.is_empty() { insert(GRPC_STATUS_DETAILS, from_maybe_shared(b64)?) }
-   The `?` is evaluated before the insert it feeds. *)
+     else { remove(GRPC_STATUS_DETAILS) }                       (fix ed827503, F-C04e)
+   The `?` is evaluated before the insert it feeds; `remove` reserves nothing and cannot panic. *)
 Definition add_header_c (st : status) (m : hm) : wres :=
   match extend_c m (sanitize (st_md st)) with
   | None => WPanic
@@ -85,7 +86,7 @@ Definition add_header_c (st : status) (m : hm) : wres :=
       match after_msg with
       | WOk m3 =>
           match st_details st with
-          | [] => WOk m3
+          | [] => WOk (hm_remove m3 hdr_grpc_status_details)
           | _ => match mk_hv (enc false (st_details st)) with
                  | None => WErr
                  | Some v => match insert_c m3 hdr_grpc_status_details v with
